@@ -12,6 +12,9 @@ CHECKS = {
  "C02": ("exploration", "conservation monitor: after every op of random histories (with hostile amount/sum/duplicate/flag variants interleaved) the raw UTXO table, reported total, balances and pending fees are compared with a statement-level UTXO model of chain(tip)+pool",
          "Runtime monitor with an implementation-independent reference model over thousands of generated operations and hostile inputs; held on what was explored.",
          "Trusted: the statement-level model (refmodel/state.go, ~150 lines); signatures and contract re-execution are out of its scope (C07, C09).", "DESIGN.md §3 C02"),
+ "C04": ("exploration", "ledger auditor: after every op of random ledger histories (forks, ties, reorganisations, held/late blocks, duplicates, invalid blocks, truncation + regrowth) every query of the statement is compared with a tree model, on the live instance and on a reopened twin",
+         "Runtime monitor against an executable tree model over thousands of operations; held on what was explored.",
+         "Trusted: the tree model (refmodel/tree.go); the ledger does not validate transaction contents, bodies are arbitrary signed transfers.", "DESIGN.md §3 C04"),
 }
 NOT_YET = "check not built yet in this session (work in progress; see DESIGN.md for the planned monitor)"
 ALL = ["C%02d" % i for i in range(1, 21)]
